@@ -1,5 +1,6 @@
 import Secp.Gen.Decode
 import Secp.Hand.Element
+import Secp.Proofs.BytesLemmas
 /-!
 # Ties between the regenerated point decoders of `element.go` and the model the C03 theorems are about
 
@@ -13,7 +14,7 @@ namespace DecodeTies
 open Hand.ElementL
 
 /-- the byte-level methods at the limb implementation -/
-def limbBytes : ByteOps L4 := ⟨Hand.Fp.fromBytesWithReduce⟩
+def limbBytes : ByteOps L4 := ⟨Hand.Fp.fromBytesWithReduce, Hand.Fp.bytes⟩
 
 /-- the Go error variable an error of the model stands for -/
 def errName : Err → String
@@ -57,5 +58,35 @@ theorem decode_tie (e : Pt L4) (data : Spec.Bytes) :
         exact decodeUncompressed_tie e data
       · rw [if_neg h3, if_neg h3]
         rfl
+
+/-! ## encoders -/
+
+theorem bytes_length (a : L4) : (Hand.Fp.bytes a).length = 32 := by
+  unfold Hand.Fp.bytes Hand.limbsToBytes
+  simp [Spec.i2osp_length]
+
+theorem encodeUncompressed_tie (e : Pt L4) :
+    GenDecode.encodeUncompressed limbBytes Hand.limbOps e = encodeUncompressed e := rfl
+
+theorem set_head (p : Nat) : List.set (List.replicate 33 0) 0 p = p :: List.replicate 32 0 := rfl
+
+theorem overwrite_body (p : Nat) (b : List Nat) (hb : b.length = 32) :
+    List.take 1 (p :: List.replicate 32 0) ++ b ++ List.drop (1 + b.length) (p :: List.replicate 32 0) = p :: b := by
+  rw [hb]
+  show [p] ++ b ++ [] = p :: b
+  simp
+
+theorem encode_tie (e : Pt L4) : GenDecode.encode limbBytes Hand.limbOps e = encode e := by
+  unfold GenDecode.encode encode ctSelect Hand.ElementL.F
+  simp only [limbBytes, set_head]
+  by_cases h : FiatField.isZero (Hand.limbOps.isZero e.z) = 1
+  · rw [if_pos h, if_pos h, overwrite_body _ _ (bytes_length _)]
+    rfl
+  · rw [if_neg h, if_neg h]
+    rfl
+
+theorem xCoordinate_tie (e : Pt L4) : GenDecode.xCoordinate limbBytes Hand.limbOps e = xCoordinate e := by
+  show List.drop 1 (GenDecode.encode limbBytes Hand.limbOps e) = List.drop 1 (encode e)
+  rw [encode_tie]
 
 end DecodeTies
